@@ -1,6 +1,8 @@
 """A7/A8 helpers: escape sets, delimiter constants, encode/decode pairing, match tables."""
 import re
 
+from . import cfg as C
+
 
 def ascii_set(fb, key):
     """Decode a `&'static percent_encoding::AsciiSet` constant into the set of byte values it contains."""
@@ -242,3 +244,81 @@ def table_agreement(ctx, rule, crates, min_pairs, exceptions=None):
                     ctx.ok(rule, "%s <-> %s" % (name, d["fn"]), "dec∘enc = id on all %d variants (exhaustive)" % len(e["map"]), loc)
     ctx.floor(rule, "encoder/decoder table pairs", npairs, min_pairs)
     return npairs
+
+
+# ------------------------------------------------------------------------------------------------
+# sibling guard agreement: copy-pasted per-type implementations of one interface decide a case under the same guards
+# ------------------------------------------------------------------------------------------------
+
+def _cond_desc(f, sb):
+    cond = C.switch_condition(f, sb)
+    if not cond:
+        return ("?",)
+    if cond[0] == "cmp":
+        k = None
+        for o in (cond[2], cond[3]):
+            v = C.eval_const(f, o)
+            if v is not None:
+                k = v
+        return ("cmp", cond[1], k)
+    if cond[0] == "call":
+        name = (cond[1].get("f") or "?")
+        name = re.sub(r"<[^<>]*>", "", name)
+        return ("call", "::".join(name.split("::")[-2:]))
+    if cond[0] == "discr":
+        return ("discr",)
+    if cond[0] == "not":
+        return ("not",)
+    return (cond[0],)
+
+
+def guard_signature(f, block):
+    """Set of (condition description, edge taken) for every switch edge that dominates `block` (edge dominance)."""
+    sig = set()
+    for sb, blk in enumerate(f.blocks):
+        if blk.get("cu") or blk["t"][0] != "sw" or sb == block:
+            continue
+        t = blk["t"]
+        targets = [(v, tg) for v, tg in t[2]] + [("otherwise", t[3])]
+        if len({tg for _v, tg in targets}) < 2:
+            continue
+        for v, tg in targets:
+            others = {(sb, tg2) for _v2, tg2 in targets if tg2 != tg}
+            # the block is reachable only through this edge of the switch
+            if block in C.reachable(f, 0) and block not in C.reachable(f, 0, removed_edges={(sb, tg)}) \
+                    and block in C.reachable(f, 0, removed_edges=others):
+                sig.add((_cond_desc(f, sb), v if not isinstance(v, str) else "else"))
+    return sig
+
+
+def sibling_guard_agreement(ctx, rule, keys, site_pred, what, min_sites=1):
+    """All sibling functions reach their `site_pred` sites under the same guard signature (closures of a sibling are searched
+    too). Majority = reference; a deviating sibling is the violation."""
+    fb = ctx.fb
+    sigs = {}
+    for k in keys:
+        fam = fb.family(k)
+        s = []
+        for g in fam:
+            for bi, blk in enumerate(g.blocks):
+                if blk.get("cu") or not site_pred(g, bi, blk):
+                    continue
+                s.append(frozenset(guard_signature(g, bi)))
+        if len(s) < min_sites:
+            ctx.violation(rule, "%s/ANCHOR-MISSING/%s/site" % (rule, k), "%s: no site of kind '%s' found" % (k, what), fb.fns[k].loc())
+            continue
+        ctx.saw_fn(fb.fns[k])
+        sigs[k] = frozenset(s)
+    if len(sigs) < 2:
+        return
+    from collections import Counter
+    ref, _n = Counter(sigs.values()).most_common(1)[0]
+    for k, s in sorted(sigs.items()):
+        if s == ref:
+            ctx.ok(rule, "%s :: %s under the family's guards" % (k, what), "%d site(s)" % len(s), fb.fns[k].loc())
+        else:
+            def fmt(x):
+                return sorted(sorted(map(str, y)) for y in x)
+            ctx.violation(rule, "%s/sibling-guards/%s" % (rule, k),
+                          "%s decides '%s' under guards %s while its sibling implementations use %s: copies of one decoder disagree on the case" % (
+                              k, what, fmt(s), fmt(ref)), fb.fns[k].loc())
